@@ -182,6 +182,7 @@ type cluWorld struct {
 	streams      map[string][]streamItem    // "srID>opID" -> delivered items in order
 	regs         map[string]map[string]bool // job incarnation -> node id -> registered
 	startCkpt    map[uint64]int
+	startedFor   map[uint64]map[string]bool // checkpoint id -> runners it was started on
 
 	savepoints            []uint64
 	restoredFromSavepoint bool
@@ -487,6 +488,10 @@ func (s *cluSRClient) StartCheckpoint(ctx context.Context, id uint64) error {
 		s.w.c.Violate(s.w.prop+"/two-checkpoints-in-progress", "StartCheckpoint(%d) was sent while checkpoint %d of the same assembly is still in progress", id, other)
 	}
 	s.w.startCkpt[id]++
+	if s.w.startedFor[id] == nil {
+		s.w.startedFor[id] = map[string]bool{}
+	}
+	s.w.startedFor[id][s.node.Id] = true
 	s.w.mu.Unlock()
 	s.w.net.record("job", s.node.Host, "start-ckpt", fmt.Sprint(id))
 	return s.w.net.rpc("job", s.node.Host, "StartCheckpoint", func() error {
